@@ -790,10 +790,10 @@ func TestVerif_C47(t *testing.T) {
 		if !c.Quick() {
 			names4 := append(append([]xml.Name{}, names...), xml.Name{Space: "", Local: "_u"})
 			values4 := append(append([]string{}, values...), `<n:e xmlns:n="u">x</n:e>`, "a&amp;b")
-			c47Seq(c, "seq-4names-file", "/f", names4, values, 3, 2, false)
-			c47Seq(c, "seq-4names-collection", "/d", names4, values, 3, 2, false)
 			c47Seq(c, "seq-wide-file", "/f", names4, values4, 1, 1, true)
 			c47Seq(c, "seq-wide-collection", "/d", names4, values4, 1, 1, true)
+			c47Seq(c, "seq-4names-file", "/f", names4, values, 3, 2, false)
+			c47Seq(c, "seq-4names-collection", "/d", names4, values, 3, 2, false)
 		}
 	})
 }
